@@ -88,7 +88,7 @@ class MethodSpec:
     pass
 
 
-def gen_method(rng, nslots=None, misaligned=False, allow_new=True, max_tries=4, plain_only_simple=False):
+def gen_method(rng, nslots=None, misaligned=False, allow_new=True, max_tries=4, plain_only_simple=False, wild_targets=True):
     n = nslots or rng.choice([3, 5, 8, 12, 20, 40])
     slots = []  # dict(kind=..., ...)
     for i in range(n):
@@ -120,6 +120,8 @@ def gen_method(rng, nslots=None, misaligned=False, allow_new=True, max_tries=4, 
             s["target"] = rng.choice([0, i + 1 if i + 1 < n else 0, rng.randrange(n), rng.randrange(n)])
             s["z"] = rng.random() < 0.5
             s["op"] = rng.randrange(6)
+            # a few branches leave the method (target before the first or after the last code unit): such a target is not a successor
+            s["wild"] = rng.choice([None] * 12 + ["neg", "past"]) if wild_targets else None
         elif k == "switch":
             s["packed"] = rng.random() < 0.5
             cnt = rng.choice([0, 1, 2, 3, 5])
@@ -206,6 +208,7 @@ def gen_method(rng, nslots=None, misaligned=False, allow_new=True, max_tries=4, 
         if s["kind"] == "switch" and s.get("share") is not None:
             pay_off[i] = pay_off[s["share"]]
             s["rel"] = slots[s["share"]]["rel"]
+    total_units_planned = pos
     # ---- emit
     insns = []
     ins_list = []  # (unit offset, units, name)
@@ -217,6 +220,11 @@ def gen_method(rng, nslots=None, misaligned=False, allow_new=True, max_tries=4, 
             t = ({8: "goto", 16: "goto/16", 32: "goto/32"}[s["width"]], off[s["target"]] - off[i])
         elif k == "if":
             rel = off[s["target"]] - off[i]
+            if s.get("wild") == "neg":
+                rel = -off[i] - rng.randint(1, 40)
+            elif s.get("wild") == "past":
+                rel = (total_units_planned - off[i]) + rng.randint(0, 40)
+            s["rel_emitted"] = rel
             if s["z"]:
                 t = (["if-eqz", "if-nez", "if-ltz", "if-gez", "if-gtz", "if-lez"][s["op"]], rng.randrange(256), rel)
             else:
@@ -276,7 +284,7 @@ def gen_method(rng, nslots=None, misaligned=False, allow_new=True, max_tries=4, 
         if k == "goto":
             term[here] = {off[s["target"]] * 2}
         elif k == "if":
-            term[here] = {nxt, off[s["target"]] * 2}
+            term[here] = {nxt, (off[i] + s["rel_emitted"]) * 2}
         elif k == "switch":
             term[here] = {nxt} | {(off[i] + r) * 2 for r in s["rel"]}
         elif k in ("return", "throw"):
@@ -288,13 +296,14 @@ def gen_method(rng, nslots=None, misaligned=False, allow_new=True, max_tries=4, 
         for t, addr in hs:
             leaders.add(addr)
     m.terminators = term
-    m.leaders = {x for x in leaders if x < total_units * 2}
+    m.leaders = {x for x in leaders if 0 <= x < total_units * 2}
     m.switch_payload = {off[i] * 2: pay_off[i] * 2 for i, s in enumerate(slots) if s["kind"] in ("switch", "fill")}
     m.payload_kind = {off[i] * 2: ("fill" if s["kind"] == "fill" else "packed" if s["packed"] else "sparse") for i, s in enumerate(slots) if s["kind"] in ("switch", "fill")}
     m.features = {"tries": len(tries), "switch": any(s["kind"] == "switch" for s in slots), "fill": any(s["kind"] == "fill" for s in slots),
                   "shared_payload": any(s.get("share") is not None for s in slots), "misaligned": any(o % 2 for o in pay_off.values()),
                   "new_ops": any(s["kind"] == "plain" and D.NAME2OP[s["ins"][0]] >= 0xFA for s in slots), "slots": n,
-                  "backward": any(s["kind"] in ("goto", "if") and s["target"] <= i for i, s in enumerate(slots))}
+                  "backward": any(s["kind"] in ("goto", "if") and s["target"] <= i for i, s in enumerate(slots)),
+                  "wild_target": any(s.get("wild") for s in slots)}
     return m
 
 
